@@ -25,7 +25,7 @@ import (
 //
 // (A) isolated gadgets: every hint call of the gadget is a candidate for substitution by a
 //     dishonest output; if the substituted tuple differs from the honest one the gadget must
-//     REJECT (engine native + plain flavours, and compiled R1CS/SCS with solver.OverrideHint).
+//     REJECT (engine native, plain and forced-bit-decomposition (on a range-checking and on a committing API) flavours, and compiled R1CS/SCS with solver.OverrideHint).
 // (B) every static hint site group of a whole-verifier execution: substitution must be rejected
 //     by the constraints of the very gadget that requested the value ("locally"), not merely
 //     because the honest proof's hashes stop matching downstream.
@@ -194,6 +194,7 @@ type c05Case struct {
 	Part   string    `json:"part"` // "gadget" | "whole" | "compiled"
 	Gadget string    `json:"gadget,omitempty"`
 	Mode   int       `json:"mode"`
+	Force  bool      `json:"force_bit_decomposition,omitempty"`
 	In     []string  `json:"in,omitempty"`
 	Base   string    `json:"base,omitempty"`
 	K      int       `json:"k,omitempty"`
@@ -221,7 +222,7 @@ func isInverseOfZero(inj eng.Injection) bool {
 // c05RunGadget: returns (violation, trivial, dontcare, desc)
 func c05RunGadget(c c05Case) (bool, bool, bool, string, eng.Result) {
 	g := c05FindGadget(c.Gadget)
-	res, _ := gad.Run(eng.Options{Mode: eng.Mode(c.Mode), Plan: eng.Plan{c.Index: c.Subst.subst()}}, unstrs(c.In), g.fn)
+	res, _ := gad.Run(eng.Options{Mode: eng.Mode(c.Mode), ForceBitDecomp: c.Force, Plan: eng.Plan{c.Index: c.Subst.subst()}}, unstrs(c.In), g.fn)
 	if len(res.Injected) == 0 {
 		return false, true, false, "", res
 	}
@@ -401,7 +402,12 @@ func TestC05(t *testing.T) {
 		kind := c05KindAt(g, idx)
 		sub := genSubst(kind).Draw(rt, "subst")
 		m := genMode().Draw(rt, "mode")
-		c := c05Case{Part: "gadget", Gadget: g.name, Mode: int(m), In: strs(in), Index: idx, Subst: toSubstJSON(sub), Kind: kind.String()}
+		force := false
+		if rapid.IntRange(0, 3).Draw(rt, "forced") == 0 {
+			// the forcing environment variable on a range-checking or committing API
+			m, force = rapid.SampledFrom([]eng.Mode{eng.ModeNative, eng.ModeCommit}).Draw(rt, "forced_mode"), true
+		}
+		c := c05Case{Part: "gadget", Gadget: g.name, Mode: int(m), Force: force, In: strs(in), Index: idx, Subst: toSubstJSON(sub), Kind: kind.String()}
 		viol, trivial, dc, d, res := c05RunGadget(c)
 		if dc {
 			dontcare++
